@@ -75,12 +75,13 @@ int ref_xz_decode(const uint8_t *in, size_t n, uint8_t *out, size_t cap, size_t 
 			unsigned nf = (fl & 3) + 1; uint64_t csize = (uint64_t)-1, usize = (uint64_t)-1; int r;
 			if (fl & 0x40) { if ((r = vli(in, &hp, hlim, &csize))) return REF_ERR_DATA; if (csize == 0) return REF_ERR_DATA; }
 			if (fl & 0x80) { if ((r = vli(in, &hp, hlim, &usize))) return REF_ERR_DATA; }
-			unsigned delta_dist[4]; int ndelta = 0; int have_lzma2 = 0; unsigned dictb = 0; int unsupported = 0;
+			size_t fstart = hp; unsigned delta_dist[4]; int ndelta = 0; int have_lzma2 = 0; unsigned dictb = 0; int unsupported = 0;
 			for (unsigned f = 0; f < nf; f++) { uint64_t id, psz; if (vli(in, &hp, hlim, &id) || vli(in, &hp, hlim, &psz)) return REF_ERR_DATA; if (hp + psz > hlim) return REF_ERR_DATA;
 				if (id == 0x21) { if (f != nf - 1 || psz != 1) return REF_ERR_UNSUPPORTED; dictb = in[hp]; if (dictb > 40) return REF_ERR_UNSUPPORTED; have_lzma2 = 1; }
 				else if (id == 0x03) { if (f == nf - 1 || psz != 1) return REF_ERR_UNSUPPORTED; delta_dist[ndelta++] = in[hp] + 1u; }
 				else unsupported = 1;
 				hp += psz; }
+			size_t fend = hp;
 			while (hp < hlim) if (in[hp++] != 0) return REF_ERR_UNSUPPORTED;
 			if (!have_lzma2 || unsupported) return REF_ERR_UNSUPPORTED;
 			pos += hsz;
@@ -105,7 +106,7 @@ int ref_xz_decode(const uint8_t *in, size_t n, uint8_t *out, size_t cap, size_t 
 			pos += cs; opos = w.out_pos;
 			if (nrec >= REF_MAX_BLOCKS) return REF_ERR_OUT;
 			rec_unp[nrec] = hsz + real_c + cs; rec_unc[nrec] = real_u; nrec++; info->blocks++;
-			if (info->nblk < REF_MAX_BLOCKS) { info->blk_off[info->nblk] = bstart; info->blk_usize[info->nblk] = real_u; info->blk_has_sizes[info->nblk] = (fl >> 6) & 3; info->nblk++; }
+			if (info->nblk < REF_MAX_BLOCKS) { info->blk_off[info->nblk] = bstart; info->blk_usize[info->nblk] = real_u; info->blk_has_sizes[info->nblk] = (fl >> 6) & 3; { uint64_t sg = 1469598103934665603ULL; for (size_t q = fstart; q < fend; q++) { sg ^= in[q]; sg *= 1099511628211ULL; } info->blk_chain[info->nblk] = sg ^ ((uint64_t)nf << 56); } info->nblk++; }
 		}
 		// Index
 		size_t istart = pos; pos++; uint64_t cnt; if (vli(in, &pos, n, &cnt)) return pos >= n ? REF_ERR_TRUNC : REF_ERR_DATA; if (cnt != nrec) return REF_ERR_DATA;
